@@ -392,15 +392,15 @@ class World:
                     tid = id_map.get(t.id, t.id)
                     if with_meta:
                         lines.append("\t".join([chrom, "vsynth", "transcript", str(t.start), str(t.end), ".",
-                                                g.strand, ".",
+                                                t.strand, ".",
                                                 'gene_id "%s"; transcript_id "%s";' % (gid, tid)]))
                     for e in t.exons:
                         attr = 'gene_id "%s"; transcript_id "%s";' % (gid, tid)
                         if exon_ids is not None:
-                            k = (chrom, e[0], e[1], g.strand)
+                            k = (chrom, e[0], e[1], t.strand)
                             if k in exon_ids:
                                 attr += ' exon_id "%s";' % exon_ids[k]
-                        lines.append("\t".join([chrom, "vsynth", "exon", str(e[0]), str(e[1]), ".", g.strand, ".",
+                        lines.append("\t".join([chrom, "vsynth", "exon", str(e[0]), str(e[1]), ".", t.strand, ".",
                                                 attr]))
         return lines
 
